@@ -58,7 +58,7 @@ PROPS = {
     ),
     "C17": dict(
         domain="world", module="Props.C17",
-        theorems=["C17_index_bounded", "C17_faithful_refines_spec", "C17_refuted_unfixed"],
+        theorems=["C17_index_bounded", "C17_fresh_only_when_full", "C17_faithful_refines_spec", "C17_refuted_unfixed"],
         required="spec",
         nontrivial="history reuses an index or contains a failing batch deletion",
     ),
